@@ -3,8 +3,10 @@ package main
 import (
 	"fmt"
 	"go/ast"
+	"go/constant"
 	"go/token"
 	"go/types"
+	"sort"
 	"strings"
 
 	"golang.org/x/tools/go/ssa"
@@ -355,3 +357,393 @@ func short(s string, n int) string {
 }
 
 var _ = fmt.Sprintf
+
+// ---------------------------------------------------------------------------
+// Regions and helper expansion (form tolerance, DESIGN §1.5)
+
+// Region returns the function key plus its *helpers*: unexported functions of the
+// same package all of whose call sites lie inside the region (closure, two rounds).
+// Rules anchored in a named function search the whole region, so that extracting a
+// few lines into a helper (or splitting a function) does not hide the construct.
+var regionMemo = map[*Prog]map[string][]*FuncInfo{}
+
+func (p *Prog) Region(key string) []*FuncInfo {
+	if m := regionMemo[p]; m != nil {
+		if r, ok := m[key]; ok {
+			return r
+		}
+	} else {
+		regionMemo[p] = map[string][]*FuncInfo{}
+	}
+	r := p.region0(key)
+	regionMemo[p][key] = r
+	return r
+}
+
+// anchorFor maps a function to the audited anchor whose region (the anchor plus its
+// private helpers) contains it; table rows are keyed by anchors, so that code moved
+// into a helper of an audited function keeps its audit (and its re-verified sub-facts).
+func (p *Prog) anchorFor(fi *FuncInfo, anchors []string) string {
+	if fi == nil {
+		return ""
+	}
+	for _, a := range anchors {
+		if a == fi.Name() {
+			return a
+		}
+	}
+	for _, a := range anchors {
+		if p.Func(a) != nil && p.inRegion(a, fi) {
+			return a
+		}
+	}
+	return fi.Name()
+}
+
+func mapKeys[V any](m map[string]V) []string {
+	var out []string
+	for k := range m {
+		out = append(out, k)
+	}
+	return out
+}
+
+func fnPartsOf(keys []string) []string {
+	seen := map[string]bool{}
+	var out []string
+	for _, k := range keys {
+		f := k
+		if i := strings.Index(k, "|"); i >= 0 {
+			f = k[:i]
+		}
+		if !seen[f] {
+			seen[f] = true
+			out = append(out, f)
+		}
+	}
+	sort.Strings(out)
+	return out
+}
+
+func (p *Prog) region0(key string) []*FuncInfo {
+	root := p.Func(key)
+	if root == nil {
+		return nil
+	}
+	in := map[*types.Func]bool{root.Obj: true}
+	out := []*FuncInfo{root}
+	for round := 0; round < 3; round++ {
+		for _, fi := range p.Funcs {
+			if in[fi.Obj] || fi.Pkg != root.Pkg || fi.Obj.Exported() {
+				continue
+			}
+			n, all := 0, true
+			for _, cs := range p.Calls() {
+				f, ok := cs.Callee.(*types.Func)
+				if !ok || f.Origin() != fi.Obj.Origin() {
+					continue
+				}
+				n++
+				if cs.Encl == nil || !in[cs.Encl.Obj] {
+					all = false
+				}
+			}
+			if n > 0 && all {
+				// also not referenced as a value
+				_, vals := p.refSites(fi.Obj)
+				if len(vals) == 0 {
+					in[fi.Obj] = true
+					out = append(out, fi)
+				}
+			}
+		}
+	}
+	return out
+}
+
+// inRegion reports whether fi is the anchor or one of its helpers.
+func (p *Prog) inRegion(key string, fi *FuncInfo) bool {
+	for _, f := range p.Region(key) {
+		if f == fi {
+			return true
+		}
+	}
+	return false
+}
+
+// helperReturn: if call invokes an own function whose body ends in `return <expr>`
+// (single result), it returns that expression, the helper and the parameter → argument
+// substitution.
+func (p *Prog) helperReturn(info *types.Info, e ast.Expr) (ast.Expr, *FuncInfo, map[types.Object]ast.Expr) {
+	call, ok := ast.Unparen(e).(*ast.CallExpr)
+	if !ok {
+		return nil, nil, nil
+	}
+	fn, ok := calleeObj(info, call).(*types.Func)
+	if !ok {
+		return nil, nil, nil
+	}
+	h := p.funcIdx[funcKey(fn.Origin())]
+	if h == nil || h.Decl.Body == nil || len(h.Decl.Body.List) == 0 {
+		return nil, nil, nil
+	}
+	ret, ok := h.Decl.Body.List[len(h.Decl.Body.List)-1].(*ast.ReturnStmt)
+	if !ok || len(ret.Results) != 1 {
+		return nil, nil, nil
+	}
+	sig := fn.Type().(*types.Signature)
+	subst := map[types.Object]ast.Expr{}
+	for i := 0; i < sig.Params().Len() && i < len(call.Args); i++ {
+		subst[sig.Params().At(i)] = call.Args[i]
+	}
+	if sig.Recv() != nil {
+		if sel, ok := ast.Unparen(call.Fun).(*ast.SelectorExpr); ok && h.Decl.Recv != nil && len(h.Decl.Recv.List[0].Names) == 1 {
+			subst[h.Pkg.TypesInfo.ObjectOf(h.Decl.Recv.List[0].Names[0])] = sel.X
+		}
+	}
+	return ret.Results[0], h, subst
+}
+
+// substString renders e with parameters replaced by the caller's argument text.
+func substString(info *types.Info, e ast.Expr, subst map[types.Object]ast.Expr) string {
+	if len(subst) == 0 {
+		return exprString(e)
+	}
+	s := exprString(e)
+	// replace identifiers token-wise
+	var ids []*ast.Ident
+	ast.Inspect(e, func(n ast.Node) bool {
+		if id, ok := n.(*ast.Ident); ok {
+			ids = append(ids, id)
+		}
+		return true
+	})
+	for _, id := range ids {
+		if a, ok := subst[info.ObjectOf(id)]; ok {
+			s = replaceIdent(s, id.Name, exprString(a))
+		}
+	}
+	return s
+}
+
+func replaceIdent(s, name, with string) string {
+	var sb strings.Builder
+	for i := 0; i < len(s); {
+		if strings.HasPrefix(s[i:], name) {
+			before := i == 0 || !isIdentChar(s[i-1])
+			after := i+len(name) >= len(s) || !isIdentChar(s[i+len(name)])
+			if before && after && (i == 0 || s[i-1] != '.') {
+				sb.WriteString(with)
+				i += len(name)
+				continue
+			}
+		}
+		sb.WriteByte(s[i])
+		i++
+	}
+	return sb.String()
+}
+
+func isIdentChar(c byte) bool {
+	return c == '_' || c >= 'a' && c <= 'z' || c >= 'A' && c <= 'Z' || c >= '0' && c <= '9'
+}
+
+// nilGuardOf recognises jen.If(<X>.Op("!=").Nil()).Block(<B>...) — written in place or
+// returned by an own helper — and returns the text of X and of B (with parameters of
+// the helper replaced by the caller's arguments).
+func (p *Prog) nilGuardOf(info *types.Info, e ast.Expr) (cond, block string, ok bool) {
+	g := p.nilGuard(info, e)
+	if g == nil {
+		return "", "", false
+	}
+	return g.Cond, g.Block, true
+}
+
+// nilGuardInfo carries the pieces of a recognised nil guard.
+type nilGuardInfo struct {
+	Cond, Block string
+	BlockArgs   []ast.Expr
+	Info        *types.Info
+	Subst       map[types.Object]ast.Expr
+}
+
+func (p *Prog) nilGuard(info *types.Info, e ast.Expr) *nilGuardInfo {
+	try := func(info *types.Info, e ast.Expr, subst map[types.Object]ast.Expr) *nilGuardInfo {
+		c, b, ok := nilGuardTry(info, e, subst)
+		if !ok {
+			return nil
+		}
+		ch, _ := chainOf(info, e)
+		return &nilGuardInfo{Cond: c, Block: b, BlockArgs: ch.Links[1].Args, Info: info, Subst: subst}
+	}
+	if g := try(info, e, nil); g != nil {
+		return g
+	}
+	if ret, h, subst := p.helperReturn(info, e); ret != nil {
+		g := try(h.Pkg.TypesInfo, ret, subst)
+		if g == nil {
+			return nil
+		}
+		// Block(param...) with a slice/variadic parameter: the statements are the caller's arguments
+		if len(g.BlockArgs) == 1 {
+			if id, ok := ast.Unparen(g.BlockArgs[0]).(*ast.Ident); ok {
+				sig := h.Obj.Type().(*types.Signature)
+				call := ast.Unparen(e).(*ast.CallExpr)
+				for i := 0; i < sig.Params().Len(); i++ {
+					if sig.Params().At(i) == h.Pkg.TypesInfo.ObjectOf(id) && i < len(call.Args) {
+						if sig.Variadic() && i == sig.Params().Len()-1 && !call.Ellipsis.IsValid() {
+							g.BlockArgs = call.Args[i:]
+							g.Info = info
+							g.Subst = nil
+						} else if cl, ok := ast.Unparen(call.Args[i]).(*ast.CompositeLit); ok {
+							g.BlockArgs = cl.Elts
+							g.Info = info
+							g.Subst = nil
+						}
+					}
+				}
+			}
+		}
+		return g
+	}
+	return nil
+}
+
+func nilGuardTry(info *types.Info, e ast.Expr, subst map[types.Object]ast.Expr) (string, string, bool) {
+	try := func(info *types.Info, e ast.Expr, subst map[types.Object]ast.Expr) (string, string, bool) {
+		ch, ok := chainOf(info, e)
+		if !ok || ch.Root != nil || len(ch.Links) < 2 || ch.Links[0].Name != "If" || ch.Links[1].Name != "Block" || len(ch.Links[0].Args) != 1 {
+			return "", "", false
+		}
+		c, ok := chainOf(info, ch.Links[0].Args[0])
+		if !ok || c.Root == nil || c.Has("Nil") == nil || c.Has("Op") == nil {
+			return "", "", false
+		}
+		if s, _ := constString(info, c.Has("Op").Args[0]); s != "!=" {
+			return "", "", false
+		}
+		// no further conjunct
+		for _, l := range c.Links {
+			if l.Name != "Clone" && l.Name != "Op" && l.Name != "Nil" {
+				return "", "", false
+			}
+		}
+		blk := ""
+		if len(ch.Links[1].Args) >= 1 {
+			var parts []string
+			for _, a := range ch.Links[1].Args {
+				parts = append(parts, substString(info, a, subst))
+			}
+			blk = strings.Join(parts, ", ")
+		}
+		return substString(info, c.Root, subst), blk, true
+	}
+	return try(info, e, subst)
+}
+
+// guardedSite: the node executes only under a guard satisfying pred — in its own
+// function, or (when that function is an unexported helper) at every one of its call
+// sites, transitively up to depth.
+func (p *Prog) guardedSite(fi *FuncInfo, stack []ast.Node, n ast.Node, pred func(info *types.Info, g Guard) bool, depth int) bool {
+	for _, g := range guardsOf(stack, n) {
+		if pred(fi.Pkg.TypesInfo, g) {
+			return true
+		}
+	}
+	if depth <= 0 || fi.Obj.Exported() {
+		return false
+	}
+	nc := 0
+	for _, cs := range p.Calls() {
+		f, ok := cs.Callee.(*types.Func)
+		if !ok || f.Origin() != fi.Obj.Origin() {
+			continue
+		}
+		nc++
+		if cs.Encl == nil || !p.guardedSite(cs.Encl, cs.Stack, cs.Call, pred, depth-1) {
+			return false
+		}
+	}
+	if _, vals := p.refSites(fi.Obj); len(vals) > 0 {
+		return false
+	}
+	return nc > 0
+}
+
+// existsPathAvoidingAtoms reports whether some CFG path from the entry of fn reaches
+// an instruction satisfying goal without any branch having established that an
+// *atom* (a condition value satisfying isAtom) is true.  Conditions materialised as
+// φ-values (`a && b` in value context) are resolved along the path, negations are
+// followed with their polarity, constant conditions prune the infeasible edge.
+func existsPathAvoidingAtoms(fn *ssa.Function, isAtom func(ssa.Value) bool, goal func(ssa.Instruction) bool) ssa.Instruction {
+	type st struct{ b, prev *ssa.BasicBlock }
+	seen := map[st]bool{}
+	var found ssa.Instruction
+	var resolve func(v ssa.Value, b, prev *ssa.BasicBlock, depth int) (ssa.Value, bool) // value, negated
+	resolve = func(v ssa.Value, b, prev *ssa.BasicBlock, depth int) (ssa.Value, bool) {
+		if depth > 6 {
+			return v, false
+		}
+		switch x := v.(type) {
+		case *ssa.UnOp:
+			if x.Op == token.NOT {
+				r, neg := resolve(x.X, b, prev, depth+1)
+				return r, !neg
+			}
+		case *ssa.Phi:
+			if x.Block() == b && prev != nil {
+				for i, pb := range b.Preds {
+					if pb == prev {
+						return resolve(x.Edges[i], b, prev, depth+1)
+					}
+				}
+			}
+		}
+		return v, false
+	}
+	var walk func(b, prev *ssa.BasicBlock)
+	walk = func(b, prev *ssa.BasicBlock) {
+		if found != nil || seen[st{b, prev}] {
+			return
+		}
+		seen[st{b, prev}] = true
+		for _, in := range b.Instrs {
+			if goal(in) {
+				found = in
+				return
+			}
+		}
+		ifi, ok := b.Instrs[len(b.Instrs)-1].(*ssa.If)
+		if !ok {
+			for _, s := range b.Succs {
+				walk(s, b)
+			}
+			return
+		}
+		v, neg := resolve(ifi.Cond, b, prev, 0)
+		if k, isK := v.(*ssa.Const); isK && k.Value != nil && k.Value.Kind() == constant.Bool {
+			val := constant.BoolVal(k.Value) != neg
+			if val {
+				walk(b.Succs[0], b)
+			} else {
+				walk(b.Succs[1], b)
+			}
+			return
+		}
+		if isAtom(v) {
+			// the edge on which the atom is true is not followed
+			if neg {
+				walk(b.Succs[0], b) // cond = !atom true → atom false
+			} else {
+				walk(b.Succs[1], b)
+			}
+			return
+		}
+		walk(b.Succs[0], b)
+		walk(b.Succs[1], b)
+	}
+	if len(fn.Blocks) > 0 {
+		walk(fn.Blocks[0], nil)
+	}
+	return found
+}
